@@ -1,0 +1,44 @@
+//! Verification hooks (feature `verif`): thin public wrappers over crate-private side-metadata
+//! items.  No behaviour of their own.
+
+use super::sanity::SideMetadataSanity;
+use super::{SideMetadataContext, SideMetadataSpec};
+use crate::util::Address;
+
+/// Map the metadata of `global` and `local` specs for the data range `[start, start + bytes)`.
+pub fn map_metadata(
+    global: &[SideMetadataSpec],
+    local: &[SideMetadataSpec],
+    start: Address,
+    bytes: usize,
+) -> bool {
+    let ctx = SideMetadataContext {
+        global: global.to_vec(),
+        local: local.to_vec(),
+    };
+    ctx.try_map_metadata_space(start, bytes, "verif").is_ok()
+}
+
+/// Run the side-metadata sanity check that plan creation runs, on a fresh sanity checker.
+/// Panics exactly when the real check panics.
+pub fn verify_metadata_context(global: &[SideMetadataSpec], local: &[SideMetadataSpec]) {
+    let ctx = SideMetadataContext {
+        global: global.to_vec(),
+        local: local.to_vec(),
+    };
+    let mut sanity = SideMetadataSanity::new();
+    sanity.verify_metadata_context("verif", &ctx);
+}
+
+/// The reserved side-metadata address range `(base, bytes)`.
+pub fn reserved_range() -> (Address, usize) {
+    (
+        super::layout::global_side_metadata_base_address(),
+        super::layout::side_metadata_reserved_bytes(),
+    )
+}
+
+/// Size of the metadata address range of a contiguous spec.
+pub fn metadata_address_range_size(spec: &SideMetadataSpec) -> usize {
+    super::metadata_address_range_size(spec)
+}
